@@ -375,6 +375,13 @@ rp_alloc_cb(void *drv, void **m, size_t n)
         return 0;
     }
     b->p = vh_arena(n);
+    /* what a fresh block holds is nobody's business: erased flash (ff), zeroes, a debug fill - and as far as
+     * MemorySanitizer is concerned it has no content at all */
+    {
+        static const unsigned char fills[4] = { 0xA5, 0xFF, 0x00, 0xFF };
+        memset(b->p, fills[(h->alloc_calls + vh_unit_salt / 32) % 4], n);
+        vh_mark_uninit(b->p, n);
+    }
     b->size = n;
     b->live = 1;
     b->frees = 0;
